@@ -5,14 +5,15 @@ from drivers import *
 FAMILY_KEYS = ["base", "Mdiff", "Ndiff", "Sdiff", "gen", "other"]
 
 
-def model(ctx, g, g2):
+def model(ctx, g, g2, g3=None):
     consts = dict(toy_consts(g))
     c2 = toy_consts(g2)
-    consts.update({"T2P": c2["TP"], "T2Q": c2["TQ"], "T2G": c2["TG"], "T2BY": c2["TBY"],
+    c3 = toy_consts(g3) if g3 else c2
+    consts.update({"T2P": c2["TP"], "T2Q": c2["TQ"], "T2G": c2["TG"], "T2BY": c2["TBY"], "T3P": c3["TP"], "T3G": c3["TG"],
                    "ParamSets": "<- MC_ParamSets", "Passwords": "<- MC_Passwords", "IdPairs": "<- MC_IdPairs",
                    "ClassSet": "<- MC_ClassSet", "MaxInst": "1", "MaxRestore": "0",
                    "ScalarChoices": "<- MC_ScalarChoices", "Attacker": "<- NoAttacker"})
-    label = "MC_Restore[%s+%s, 3 saving classes x 6 parameter sets -> 3 classes x 6 sets]" % (g, g2)
+    label = "MC_Restore[%s+%s+%s, 3 saving classes x 7 parameter sets -> 3 classes x 7 sets]" % (g, g2, g3)
     ctx.mc("MC_Restore", cfg(view="ViewNoLast", spec="RestoreSpec", constants=consts, invariants=["RestoreSoundButF6"]), label=label)
     # the design itself admits F6 (generator not fingerprinted): TLC must find it
     res = ctx.mc("MC_Restore", cfg(view="ViewNoLast", spec="RestoreSpec", constants=consts, invariants=["RestoreSound"]),
@@ -20,7 +21,7 @@ def model(ctx, g, g2):
     return "RestoreSound" in res["violated"]
 
 
-def family(uni, g, g2, alt):
+def family(uni, g, g2, alt, sameq=None):
     """parameter-set family on the real code; returns {key: psname}"""
     fam = {}
     base = "P" + g
@@ -50,6 +51,9 @@ def family(uni, g, g2, alt):
     fam["gen"] = "P%s-gen" % g
     uni.paramset("P" + g2, grp=g2)
     fam["other"] = "P" + g2
+    if sameq:       # a different group with the same subgroup order, the same element size and the same seeds
+        uni.paramset("P%s-sameq" % g, grp=sameq, M=M, N=N, S=S)
+        fam["sameq"] = "P%s-sameq" % g
     return fam
 
 
@@ -77,16 +81,16 @@ def matrix(ctx, uni, mp, fam, gname, tag, classes="ABS", savekeys=None, restorek
 
 def run(ctx):
     thorough = ctx.tier == "thorough"
-    f6_in_model = model(ctx, "i23", "i47")
+    f6_in_model = model(ctx, "i23", "i47", "i67")
     if thorough:
         model(ctx, "ed37", "ed53")
-        model(ctx, "i263", "i269")
+        model(ctx, "i263", "i269", "i787")
     uni = Universe()
     mp = Mapper(uni)
     # the same (p,q) with another generator; the same toy curve with another base point
     uni.int_group("i23alt", 23, 11, 4)
     traces, silent = [], []
-    fam = family(uni, "i23", "i47", "i23alt")
+    fam = family(uni, "i23", "i47", "i23alt", sameq="i67")
     t, s = matrix(ctx, uni, mp, fam, "i23", "toy-i23")
     traces += t
     silent += [("i23",) + x for x in s]
